@@ -936,7 +936,7 @@ fn main() {
         let flavours = [Flavour::Base, Flavour::Enumerable, Flavour::Consecutive];
         // one wall-clock budget per tier, shared by the worlds (each world gets what is left)
         let t0 = std::time::Instant::now();
-        let budget: u64 = tier.pick(42, 570);
+        let budget: u64 = envd("C11_BUDGET", tier.pick(42, 570)) as u64;
         let run = |r: &mut Runner, w: Nft, depth: usize| {
             if only.is_empty() || w.name().contains(&only) {
                 let left = budget.saturating_sub(t0.elapsed().as_secs()).max(1);
